@@ -61,6 +61,7 @@ func fuzzEntries(f *testing.F, part string, ents []entry, seeds [][]byte, extra 
 	}
 	f.Fuzz(func(t *testing.T, data []byte) {
 		deepPoke = false
+		data = exact(data)
 		for _, e := range ents {
 			p := &probe{part: part, entry: e.name, input: data, note: "fuzz"}
 			stage := 0
@@ -220,7 +221,7 @@ func FuzzC15A_Gossip(f *testing.F) {
 		deepPoke = false
 		ti := int(data[0]) % len(topicKinds)
 		ts := topics[ti]
-		msg := data[1:]
+		msg := exact(data[1:])
 		p := &probe{part: "fuzz_gossip", entry: "gossip/" + topicKinds[ti].name, input: msg, note: "fuzz", noGoroutineCheck: true}
 		res := pubsub.ValidationResult(-1)
 		p.run(t, func() {
@@ -259,9 +260,10 @@ func FuzzC15A_SubmitBlock(f *testing.F) {
 			}
 		}
 		e := ents[int(data[0])%len(ents)]
-		p := &probe{part: "fuzz_submit", entry: e.name, input: data[1:], note: "fuzz", noGoroutineCheck: true}
+		in := exact(data[1:])
+		p := &probe{part: "fuzz_submit", entry: e.name, input: in, note: "fuzz", noGoroutineCheck: true}
 		stage := 0
-		p.run(t, func() { stage = e.run(data[1:]) })
+		p.run(t, func() { stage = e.run(in) })
 		lbl := stageLabel[stage]
 		if lastCrash != nil {
 			lbl = "crashed"
